@@ -311,6 +311,14 @@ func TestConstructed(t *testing.T) {
 			}
 		}
 		want := renderBlocks(blocks, false)
+		if codeNLCount > 0 {
+			kit.R.ClassN("spelling:line-ending-in-code-span", int64(codeNLCount))
+			codeNLCount = 0
+		}
+		if altAutoCount > 0 {
+			kit.R.ClassN("construct:autolink-in-image-description", int64(altAutoCount))
+			altAutoCount = 0
+		}
 		if notLinkCount > 0 {
 			kit.R.ClassN("spelling:link-look-alike", int64(notLinkCount))
 			notLinkCount = 0
